@@ -22,23 +22,32 @@ Definition write_segment {A} (maxRows : nat) (st : list A * list (list A)) : lis
   if maxRows <? length buf then (skipn maxRows buf, out ++ [firstn maxRows buf]) else ([], out ++ [buf]).
 
 (* how many nil cells the code appends for one segment of a chunk without the column, and the new rowCount.
-   dec = true is the repository's code (rowCount -= maxRows after a full segment); dec = false is the documented mutant
-   that forgets the decrement *)
-Definition pad_step (dec : bool) (maxRows rowCount : nat) : nat * nat :=
-  if maxRows <? rowCount then (maxRows, if dec then rowCount - maxRows else rowCount) else (rowCount, rowCount).
+   PadCounter is the repository's code: counter arithmetic (a full segment while more than max-rows rows remain, rowCount -=
+   maxRows after it, the remainder at the end) - it never looks at the real size r of the chunk's time segment.
+   PadNoDec is the documented mutant that forgets the decrement. PadActual is the repair (props/C03/fix3.patch): as many
+   nils as the time segment has rows. *)
+Inductive padmode := PadCounter | PadNoDec | PadActual.
+
+Definition pad_step (mode : padmode) (maxRows rowCount r : nat) : nat * nat :=
+  match mode with
+  | PadActual => (r, rowCount)
+  | _ => if maxRows <? rowCount
+         then (maxRows, match mode with PadCounter => rowCount - maxRows | _ => rowCount end)
+         else (rowCount, rowCount)
+  end.
 
 (* the segment loop over one input chunk. rows: the remaining time segments; col: the remaining column segments;
    rowCount: the padding counter; lastItr: this is the last input chunk of the series *)
-Fixpoint seg_loop {A} (dec : bool) (nil : A) (maxRows : nat) (lastItr : bool) (rows : list nat)
+Fixpoint seg_loop {A} (mode : padmode) (nil : A) (maxRows : nat) (lastItr : bool) (rows : list nat)
          (col : option (list (list A))) (rowCount : nat) (st : list A * list (list A)) : list A * list (list A) :=
   match rows with
   | [] => st
-  | _ :: rest =>
+  | r :: rest =>
       let '(add, col', rc') :=
         match col with
         | Some (seg :: segs) => (seg, Some segs, rowCount)
         | Some [] => ([], Some [], rowCount)
-        | None => let (n, rc) := pad_step dec maxRows rowCount in (repeat nil n, None, rc)
+        | None => let (n, rc) := pad_step mode maxRows rowCount r in (repeat nil n, None, rc)
         end in
       let buf1 := fst st ++ add in
       let lastSeg := match rest with [] => true | _ => false end in
@@ -46,26 +55,28 @@ Fixpoint seg_loop {A} (dec : bool) (nil : A) (maxRows : nat) (lastItr : bool) (r
       else
         let st1 := write_segment maxRows (buf1, snd st) in
         let st2 := if lastItr && lastSeg && (0 <? length (fst st1)) then write_segment maxRows st1 else st1 in
-        seg_loop dec nil maxRows lastItr rest col' rc' st2
+        seg_loop mode nil maxRows lastItr rest col' rc' st2
   end.
 
-Fixpoint itr_loop {A} (dec : bool) (nil : A) (maxRows : nat) (srcs : list (src A)) (st : list A * list (list A))
+Fixpoint itr_loop {A} (mode : padmode) (nil : A) (maxRows : nat) (srcs : list (src A)) (st : list A * list (list A))
   : list A * list (list A) :=
   match srcs with
   | [] => st
   | s :: rest =>
       let lastItr := match rest with [] => true | _ => false end in
-      itr_loop dec nil maxRows rest (seg_loop dec nil maxRows lastItr (s_rows s) (s_col s) (total (s_rows s)) st)
+      itr_loop mode nil maxRows rest (seg_loop mode nil maxRows lastItr (s_rows s) (s_col s) (total (s_rows s)) st)
   end.
 
 (* compactColumn followed by writeLastSegment: the segments written for the column *)
-Definition compact_col_gen {A} (dec : bool) (nil : A) (maxRows : nat) (srcs : list (src A)) : list (list A) :=
-  let st := itr_loop dec nil maxRows srcs ([], []) in
+Definition compact_col_gen {A} (mode : padmode) (nil : A) (maxRows : nat) (srcs : list (src A)) : list (list A) :=
+  let st := itr_loop mode nil maxRows srcs ([], []) in
   if 0 <? length (fst st) then snd (write_segment maxRows st) else snd st.
 
-Definition compact_col {A} := @compact_col_gen A true.
+Definition compact_col {A} := @compact_col_gen A PadCounter.
 (* the mutant: padding counter never decremented *)
-Definition compact_col_nodec {A} := @compact_col_gen A false.
+Definition compact_col_nodec {A} := @compact_col_gen A PadNoDec.
+(* the repair: padding by the real segment size *)
+Definition compact_col_actual {A} := @compact_col_gen A PadActual.
 
 (* specification side: the cells the column contributes, chunk after chunk (absent column = one nil per row) *)
 Definition expand {A} (nil : A) (s : src A) : list A :=
@@ -87,4 +98,10 @@ Fixpoint wf_rows (maxRows : nat) (rows : list nat) : Prop :=
 
 Definition wf_src {A} (maxRows : nat) (s : src A) : Prop :=
   wf_rows maxRows (s_rows s) /\
+  match s_col s with Some segs => map (@length A) segs = s_rows s | None => True end.
+
+(* the weaker shape that files written under another (smaller or equal) max-rows-per-segment still have: at least one
+   segment, no segment longer than max-rows *)
+Definition bounded_src {A} (maxRows : nat) (s : src A) : Prop :=
+  s_rows s <> [] /\ Forall (fun r => r <= maxRows) (s_rows s) /\
   match s_col s with Some segs => map (@length A) segs = s_rows s | None => True end.
